@@ -744,6 +744,40 @@ def check_structural_passive_reader(chk, rng):
     chk.coverage["traces_validated_against_impl"] += len(scns)
 
 
+def check_feedback_inside_try_except(chk, rng):
+    """an accumulating loop inside a try_except sub-graph; a node ranked after the feedback's writer throws in some cycles.
+    What was written in such a cycle is still delivered one step later - also when nothing else wakes the sub-graph then.
+    Level A is the statement itself: S(t) = x(t) + S(previous tick), result 2*S(t) when S(t) >= 0, one error tick otherwise."""
+    scns, metas = [], []
+    for k in range(30 if chk.tier == "quick" else 400):
+        horizon = rng.choice([7, 9])
+        ticks = P.gen_script(rng, horizon, maxlen=4, values=(1, 2, -1, 3, -4, -6))
+        scns.append("\n".join(["scn fbtry%d" % k, "opt start=1 end=%d" % (horizon + 1), "graph g0 nin=1", "n 20 fb", "n 21 sumu in=a0,p:20",
+                               "bind 20 21", "n 22 throwneg in=21", "out 22", "endgraph", "graph root",
+                               "n 1 src script=" + ";".join("%d:%d" % (t, v) for t, v in ticks), "n 8 tryexc g=0 in=1", "n 4 rec in=8",
+                               "endgraph", "run"]))
+        metas.append(ticks)
+    traces = hg.run_driver("engine", scns)
+    for scn, ticks, tr in zip(scns, metas, traces):
+        chk.count({"scn": scn})
+        if isinstance(tr, dict) or any(e["e"] in ("wirefail", "harnessfail") for e in tr):
+            chk.violation("fbtry:run", "feedback inside try_except crashed or could not be wired", scn)
+            continue
+        total, want, errs = 0, [], []
+        for t, v in ticks:
+            total += v
+            if total >= 0:
+                want.append((t, 2 * total))
+            else:
+                errs.append((t, "neg %d" % total))
+        got = [(e["t"], e["v"]) for e in tr if e["e"] == "rec" and e["id"] == 4]
+        gote = [(e["t"], e["msg"]) for e in tr if e["e"] == "err"]
+        if got != want or gote != errs:
+            chk.violation("fbtry:stream", "a loop inside try_except: results %s and error ticks %s are required, observed %s and %s"
+                          % (want, errs, got, gote), "# C08 feedback inside try_except\n" + scn + "\n")
+    chk.coverage["traces_validated_against_impl"] += len(scns)
+
+
 def check_map_feedback(chk, rng):
     """a feedback loop INSIDE every child of a map_: each key accumulates its own values through its own loop (passive
     reader); a delivery is due one step after the write - also when, in that cycle, the map is woken only by another
@@ -806,6 +840,7 @@ def check_c08(chk, rng):
     check_map_feedback(chk, rng)
     check_passive_loop_next_to_active_twin(chk, rng)
     check_structural_passive_reader(chk, rng)
+    check_feedback_inside_try_except(chk, rng)
     quiet = 0
     for c in cases:
         if isinstance(c.events, dict):
